@@ -1180,7 +1180,7 @@ func (ex *Exec) evalSpecFunc(name string, call *ast.CallExpr, st *State) []Value
 	case "lastpkt", "lastsent":
 		g, ok := st.ghost["net."+name]
 		if !ok {
-			g = namedValue("ghost|net."+name+"0", types.NewSlice(types.Typ[types.Byte]))
+			g = namedValue("ghost|net."+name+"0", types.NewSlice(ghostByteT))
 			st.assumeValid(g)
 			st.ghost["net."+name] = g
 		}
